@@ -1,6 +1,6 @@
 (* C13  Crash atomicity of archive writes.
    Only statements, each closed by a lemma of Store/*.v, with Print Assumptions. *)
-From Klepto Require Import OMap OMapFacts DictSpec DictFacts FileArch Backends DirProto SqlCrash.
+From Klepto Require Import OMap OMapFacts DictSpec DictFacts FileArch Backends DirProto DirBatch SqlCrash.
 
 (* single file: write the staging file, then replace the target.  Whatever prefix of the actions was
    executed - the write of the staging file possibly cut short - a new process reads the old or the
@@ -76,6 +76,18 @@ Theorem C13_dir_store_completes : forall fs n k v t t2, t <> t2 -> fs (NTemp t2)
   forall n', n' <> n -> entry (DirProto.drun fs (store n k v t t2)) n' = entry fs n'.
 Proof. exact store_completes. Qed.
 
+(* operations that store several keys (update, dump from a cache, a seeded constructor) are a sequence
+   of single stores: after ANY prefix of the whole action sequence the archive is readable, keys that
+   are not being stored are unchanged, each key being stored reads old / new / (overwrite) nothing *)
+Theorem C13_dir_batch_crash : forall js fs i,
+  NoDup (map j_name js) -> NoDup (flat_map job_temps js) ->
+  (forall x, In x (flat_map job_temps js) -> fs (NTemp x) = None) -> readable fs ->
+  let st := DirProto.drun fs (firstn i (batch js)) in
+  readable st /\
+  (forall n', ~ In n' (map j_name js) -> entry st n' = entry fs n') /\
+  (forall j, In j js -> outcome fs st j).
+Proof. exact batch_crash. Qed.
+
 (* refuted for an overwrite: between the two renames the key is absent (known finding K2) *)
 Theorem C13_dir_overwrite_window_refuted :
   exists fs n k v t t2 i, t <> t2 /\ readable fs /\
@@ -106,3 +118,4 @@ Print Assumptions C13_dir_remove_file_by_file_refuted.
 Print Assumptions C13_sql_step_is_its_statements.
 Print Assumptions C13_sql_op_crash_prefix.
 Print Assumptions C13_sql_untouched_key_unchanged.
+Print Assumptions C13_dir_batch_crash.
